@@ -42,6 +42,10 @@ func relID(w *mon.SessWorld, rel string) *spb.Uint128 {
 		return &spb.Uint128{High: m.High - 1, Low: 9}
 	case "equal":
 		return &spb.Uint128{High: m.High, Low: m.Low}
+	case "high-wrap":
+		// a valid id above the maximum whose two 64-bit halves add up to exactly 2^64 (any
+		// arithmetic on the halves instead of a 128-bit comparison mistakes it for zero)
+		return &spb.Uint128{High: m.High + 1, Low: ^uint64(0) - m.High}
 	}
 	return &spb.Uint128{High: m.High, Low: m.Low + 1}
 }
@@ -63,7 +67,7 @@ func alphabet() []symbol {
 			}
 		}
 	}
-	for _, rel := range []string{"zero", "low", "equal", "high"} {
+	for _, rel := range []string{"zero", "low", "equal", "high", "high-wrap"} {
 		rel := rel
 		out = append(out, symbol{"E(" + rel + ")", func(w *mon.SessWorld, s *mon.SS, g *gen.Gen) []string {
 			return w.SendElection(s, relID(w, rel))
@@ -352,5 +356,6 @@ func TestCheck(t *testing.T) {
 	}
 	run.Sample(map[string]any{"alphabet": names, "bystander_configurations": bystanderCfgs, "start_states": startStates})
 	run.Assume("expected termination statuses: INVALID_ARGUMENT for multi-field messages and the zero id; FAILED_PRECONDITION+MODIFY_NOT_ALLOWED for late/repeated parameters; UNIMPLEMENTED or FAILED_PRECONDITION with UNSUPPORTED_PARAMS for unsupported modes; FAILED_PRECONDITION+PARAMS_DIFFER_FROM_OTHER_CLIENTS for differing parameters; FAILED_PRECONDITION+ELECTION_ID_IN_ALL_PRIMARY for an election id without SINGLE_PRIMARY; UNIMPLEMENTED+UNSUPPORTED_PARAMS for operations without negotiation; any non-OK status (or in-band FAILED) for operations without / before / above an election id. Where two violations coincide either status is accepted; whether an un-negotiated live session constrains newcomers is left open")
-	run.Finish("ALL sequences of length <= 3 over a 20-symbol alphabet {8 session-parameter combinations, election zero/low/equal/high, operation with/without id, 6 multi-field messages incl. two whose election id is present but all-zero} on one session started in each of 4 states (fresh; negotiated; negotiated and primary; negotiated and superseded), in each of 6 bystander configurations (none; negotiated RIB/FIB primary with installed entries; un-negotiated session; combinations) - exhaustive for that space; in the thorough tier also ALL sequences of length 4 from the fresh and the primary start state without bystanders and next to a negotiated primary - plus random sequences of length 4-12; after EVERY message the termination status (code + ModifyRPCErrorDetails reason), the complete hooked server state vs the model and the silence of the other streams are checked; afterwards a fresh session must be able to negotiate and sees the unchanged maximum id. 1 in 97 sequences run over real gRPC", 1000, false)
+	concurrentHandshakes(run)
+	run.Finish("ALL sequences of length <= 3 over a 21-symbol alphabet {8 session-parameter combinations, election zero/low/equal/high/high with halves adding up to 2^64, operation with/without id, 6 multi-field messages incl. two whose election id is present but all-zero} on one session started in each of 4 states (fresh; negotiated; negotiated and primary; negotiated and superseded), in each of 6 bystander configurations (none; negotiated RIB/FIB primary with installed entries; un-negotiated session; combinations) - exhaustive for that space; in the thorough tier also ALL sequences of length 4 from the fresh and the primary start state without bystanders and next to a negotiated primary - plus random sequences of length 4-12; after EVERY message the termination status (code + ModifyRPCErrorDetails reason), the complete hooked server state vs the model and the silence of the other streams are checked; afterwards a fresh session must be able to negotiate and sees the unchanged maximum id. 1 in 97 sequences run over real gRPC. Plus concurrent handshakes: 2-3 connected sessions send supported parameters with equal or different acknowledgement types at the same moment (yield points perturbed): no two sessions answered OK may hold different parameters", 1000, false)
 }
